@@ -857,7 +857,12 @@ int sim_probes_snapshot(const char **names, unsigned long long *vals, int max) {
 	return n;
 }
 void *sim_fiber_tls(int fiber, int key);
-void *sim_fiber_tls(int fiber, int key) { if (fiber < 0 || fiber >= S.nfb || key < 0 || key >= SIM_MAX_KEYS) return NULL; return S.fb[fiber].tls[key]; }
+/* does `fiber` hold `val` as thread-specific data under any key */
+int sim_fiber_has_tls_value(int fiber, const void *val) {
+	if (fiber < 0 || fiber >= S.nfb || !val) return 0;
+	for (int i = 0; i < SIM_MAX_KEYS; i++) if (S.fb[fiber].tls_key[i] && S.fb[fiber].tls[i] == val) return 1;
+	return 0;
+}
 
 /* ================================================================= faults */
 int sim_fault(const char *site) {
@@ -901,6 +906,11 @@ int sim_faults_fired(void) {
 		if (l > 6 && 0 == strcmp(S.faults[i].site + l - 6, ".short")) continue;
 		n += S.faults[i].fired;
 	}
+	return n;
+}
+int sim_fault_fired_err(const char *site, int err) {
+	int n = 0;
+	for (int i = 0; i < S.nfaults; i++) if (S.faults[i].err == err && 0 == strcmp(S.faults[i].site, site)) n += S.faults[i].fired;
 	return n;
 }
 int sim_fault_fired_op(int op) {
